@@ -119,6 +119,9 @@ fn run_slices(ctx: &Ctx, sub: &str, rs: &[u32], gs: &[u32], bs: &[u32], bound: &
 }
 
 pub fn run(ctx: &Ctx) {
+    // the watchdog's clock also covers the harness's own oracle work (reference models, DOM enumeration);
+    // the limit is generous so that machine load cannot turn a slow case into a verdict
+    ctx.hang_limit_s.store(600, std::sync::atomic::Ordering::Relaxed);
     // ---- names ---------------------------------------------------------------------
     let sub = "names";
     par(
@@ -287,7 +290,9 @@ pub fn run(ctx: &Ctx) {
 
     // ---- constructors from HSL / HWB against reference ------------------------------
     let sub = "hsl-constructors";
-    let hues: Vec<i32> = (-60..=420).step_by(ctx.pick(15, 5)).collect();
+    // (hues far outside [0, 360), on both sides: normalisation must be a true modulo)
+    let mut hues: Vec<i32> = (-60..=420).step_by(ctx.pick(15, 5)).collect();
+    hues.extend([-720, -719, -600, -480, -361, -300, -270, -241, -240, -239, -180, -90, 480, 719, 720, 1080]);
     let pcts: Vec<i32> = ctx.pick(vec![-10, 0, 1, 25, 33, 50, 67, 75, 99, 100, 110], (-10..=110).step_by(5).collect());
     let nh = hues.len() as u64;
     par(
@@ -349,6 +354,70 @@ pub fn run(ctx: &Ctx) {
     );
     ctx.bound(sub, "hsl()/hwb() over a hue x percentage grid incl. out-of-range values, against the CSS formulas; channel range invariant", true);
     ctx.sample(sub, json!({"input": "hsl(420, 110%, -10%)"}));
+
+    // ---- mix() with transparent operands at the ends of the weight range ------------------------------
+    {
+        let sub = "mix-alpha";
+        let cols = ["255, 0, 0", "0, 0, 255", "12, 200, 99", "0, 0, 0"];
+        let alphas = ["0", "0.5", "1"];
+        let weights = ["0%", "100%", "50%", "25%"];
+        let n = (cols.len() * cols.len() * alphas.len() * alphas.len()) as u64;
+        par(
+            ctx,
+            sub,
+            n,
+            |i| json!({"index": i}),
+            |i, l| {
+                let i = i as usize;
+                let (c1, c2) = (cols[i % 4], cols[(i / 4) % 4]);
+                let (a1, a2) = (alphas[(i / 16) % 3], alphas[i / 48]);
+                let mut src = format!("$a: rgba({}, {});\n$b: rgba({}, {});\n", c1, a1, c2, a2);
+                for w in weights {
+                    src.push_str(&format!("$m: mix($a, $b, {w}); w{{w: \"{w}\"; r: red($m); g: green($m); b: blue($m); al: alpha($m); isa: ($m == $a); isb: ($m == $b)}}\n", w = w));
+                }
+                l.evals += 1;
+                let o = compile(&src, &Cfg::scss());
+                l.outcome(o.digest());
+                l.validated += 1;
+                let Outcome::Ok(c) = &o else {
+                    ctx.violation(sub, &format!("mix-alpha:{}:{}:{}:{}", c1, a1, c2, a2), &format!("program failed: {}", o.brief()), json!({"input": src}));
+                    return;
+                };
+                l.nontrivial += 1;
+                let d = decls(c);
+                // decls come in groups of 7 per weight
+                let mut k = 0;
+                while k + 6 < d.len() {
+                    let g: Vec<&str> = d[k..k + 7].iter().map(|x| x.2.as_str()).collect();
+                    k += 7;
+                    let w = g[0].trim_matches('"');
+                    let mut bad = Vec::new();
+                    for (nm, v) in [("red", g[1]), ("green", g[2]), ("blue", g[3])] {
+                        let x: f64 = v.parse().unwrap_or(f64::NAN);
+                        if !(0.0..=255.0).contains(&x) || x.fract() != 0.0 {
+                            bad.push(format!("{}() = {}", nm, v));
+                        }
+                    }
+                    let al: f64 = g[4].parse().unwrap_or(f64::NAN);
+                    if !(0.0..=1.0).contains(&al) {
+                        bad.push(format!("alpha() = {}", g[4]));
+                    }
+                    if w == "100%" && g[5] != "true" {
+                        bad.push("mix($a, $b, 100%) is not $a".into());
+                    }
+                    if w == "0%" && g[6] != "true" {
+                        bad.push("mix($a, $b, 0%) is not $b".into());
+                    }
+                    if !bad.is_empty() {
+                        ctx.violation(sub, &format!("mix-alpha:{}:{}:{}:{}:{}", c1, a1, c2, a2, w), &format!("mix(rgba({}, {}), rgba({}, {}), {}): {}", c1, a1, c2, a2, w, bad.join("; ")), json!({"input": src, "output": c}));
+                        return;
+                    }
+                }
+            },
+        );
+        ctx.bound(sub, "4 x 4 colours x 3 x 3 alphas (0, 0.5, 1) x weights 0%, 25%, 50%, 100%: channels and alpha in range; weight 100% returns the first operand, 0% the second", true);
+        ctx.sample(sub, json!({"input": "mix(red, rgba(0, 0, 255, 0), 0%)"}));
+    }
 
     // ---- alpha arguments of the constructors: percentages and numbers, in and out of range ----------
     {
